@@ -205,6 +205,12 @@ E10 = dict(name='every subset of the registered leaves, features on/off (deploy 
 K18C = _o('oracle: CouplesAnalysis.MergeResults cell by cell (re-indexed sums, unions of touched files)', 'k18c', 8000, 300000,
           'pairs of couples results over 5 file names and 6 identities (shared e-mails / names), rows of the unmatched author, '
           'results as produced by Finalize and as read back from the binary format')
+RNH = _o('oracle: RenameAnalysis under load (time budgets ending inside the similarity passes)', 'krnh', 240, 12000,
+         '5-75 deleted x 5-75 added files of 0.3-1.5 KB (unrelated / moved with edits / look-alike), budgets 1ns..25ms..unlimited: re-pairing, exact duplicates, no panic, no deadlock')
+RNHR = _o('oracle: RenameAnalysis under load, race detector build (data races between the two matchers end the case)', 'krnh.race', 40, 2000,
+          'the same generator with at most 30 files per side, binary built with go build -race, GORACE=halt_on_error', ['light'])
+K09B = _o('oracle: BurndownAnalysis Hibernate/Boot through a file (intact, removed, cut to every shorter length)', 'k09b', 1500, 60000,
+          '1-8 files, thresholds 0/3/1000; an intact file must boot to the state of a never-hibernated twin, a damaged one must make Boot fail')
 K18B = _o('oracle: BurndownAnalysis.MergeResults developer histories, interaction matrix, global history', 'k18b', 4000, 150000,
           'pairs of burndown results over two overlapping identity pools, 5 sampling/granularity pairs, begin dates up to 5 days apart, '
           'results without developer tracking on one side')
@@ -229,18 +235,18 @@ PLANR = dict(name='prepareRunPlan validated (random graphs up to 60 commits)', p
 
 PROPS = {
     'C01': dict(corr=[GS, RT, BD, DAG, E01, E01L, E01V]),
-    'C02': dict(level='translation_validation', corr=[PLAN4, PLAN5, PLAN6, PLANR]),
+    'C02': dict(level='translation_validation', corr=[PLAN4, PLAN5, PLAN6, PLANR, RUN]),
     'C03': dict(corr=[FU]),
     'C04': dict(corr=[GC, PLAN5, PLANR]),
     'C05': dict(corr=[RB, RBQ, RBC, RBW, E05]),
     'C06': dict(corr=[RB, RBC, RBW, HB, HBF, E05]),
     'C07': dict(corr=[MG, DAG]),
     'C08': dict(corr=[DAG, RBC, RBW, PFORK]),
-    'C09': dict(corr=[RUN, HB, HBF, E01]),
+    'C09': dict(corr=[RUN, HB, HBF, K09B, E01]),
     'C10': dict(level='translation_validation', corr=[RES, E10]),
     'C11': dict(corr=[LN, K11D, E11, E11W]),
     'C12': dict(corr=[LN, LNC, ONES, RUN, E14]),
-    'C13': dict(corr=[RN]),
+    'C13': dict(corr=[RN, RNH, RNHR]),
     'C14': dict(corr=[RUN, E14]),
     'C15': dict(corr=[TS]),
     'C16': dict(corr=[IDG, IDM, E16I, E16M, E16S]),
